@@ -5,7 +5,9 @@ import (
 	"regexp"
 	"strconv"
 	"strings"
+	"sync"
 
+	"github.com/rulego/streamsql/condition"
 	"github.com/rulego/streamsql/expr"
 	"github.com/rulego/streamsql/functions"
 	"github.com/rulego/streamsql/types"
@@ -521,6 +523,9 @@ func (s *Stream) processExpressionField(fieldName string, dataMap map[string]any
 			}
 			evalResult = exprResult
 		}
+	} else if value, ok := evaluateNullOperand(exprInfo.processedExpr, dataMap); ok {
+		// A NULL operand of = / != makes the comparison NULL, as in WHERE
+		evalResult = value
 	} else {
 		// Try using bridge processor for other expressions
 		exprResult, err := bridge.EvaluateExpression(exprInfo.processedExpr, dataMap)
@@ -557,6 +562,9 @@ func (s *Stream) processExpressionField(fieldName string, dataMap map[string]any
 // be nil, in which case the text is parsed on demand. The bridge's error is
 // reported when both fail.
 func evaluateWithFallback(exprText string, compiled *expr.Expression, data map[string]any) (any, error) {
+	if value, ok := evaluateNullOperand(exprText, data); ok {
+		return value, nil
+	}
 	result, err := functions.GetExprBridge().EvaluateExpression(exprText, data)
 	if err == nil {
 		return result, nil
@@ -576,6 +584,57 @@ func evaluateWithFallback(exprText string, compiled *expr.Expression, data map[s
 		return nil, nil
 	}
 	return value, nil
+}
+
+// nullOperandValues caches, per expression text, the evaluator that gives = and
+// != their SQL meaning for a NULL operand (nil when the text needs none).
+var nullOperandValues sync.Map
+
+// exprFunctionCall matches a call of expr(), whose argument only the bridge
+// evaluates against the row.
+var exprFunctionCall = regexp.MustCompile(`(?i)\bexpr\s*\(`)
+
+// evaluateNullOperand decides a scalar expression in which a NULL operand
+// reaches an = or != comparison. The bridge hands such a text to expr-lang,
+// where nil != 'x' is true and nil == nil is true, so `s != 'x' AS r` was true
+// for a row without s although the same comparison rejects the row in WHERE. ok
+// is false when no NULL operand reaches such a comparison on this row or when
+// expr-lang cannot compile the text (the bridge cannot evaluate it either and
+// the SQL expression engine, which knows NULL, does); the caller then evaluates
+// the text as before. The text is lowered the way the bridge lowers it.
+func evaluateNullOperand(exprText string, data map[string]any) (value any, ok bool) {
+	cached, found := nullOperandValues.Load(exprText)
+	if !found {
+		var nullOperand *condition.NullOperandValue
+		if !exprFunctionCall.MatchString(exprText) {
+			bridge := functions.GetExprBridge()
+			lowered := exprText
+			if bridge.ContainsBacktickIdentifiers(lowered) {
+				if processed, err := bridge.PreprocessBacktickIdentifiers(lowered); err == nil {
+					lowered = processed
+				}
+			}
+			if bridge.ContainsLikeOperator(lowered) {
+				if processed, err := bridge.PreprocessLikeExpression(lowered); err == nil {
+					lowered = processed
+				}
+			}
+			if bridge.ContainsIsNullOperator(lowered) {
+				if processed, err := bridge.PreprocessIsNullExpression(lowered); err == nil {
+					lowered = processed
+				}
+			}
+			if compiled, err := condition.NewNullOperandValue(lowered); err == nil {
+				nullOperand = compiled
+			}
+		}
+		cached, _ = nullOperandValues.LoadOrStore(exprText, nullOperand)
+	}
+	nullOperand := cached.(*condition.NullOperandValue)
+	if nullOperand == nil {
+		return nil, false
+	}
+	return nullOperand.Evaluate(data)
 }
 
 // processExpressionFieldFallback fallback logic for expression field processing
